@@ -1149,4 +1149,13 @@ example : RestBridge.W.A.PortOk ∧
     (∀ (k : Nat) (row : SRow), ({} : AbsState).servers[k]? = some row → row.svr.addr.key = k ∧ row.svr.addr.PortOk) :=
   ⟨by unfold Addr.PortOk; decide, fun k row h => by simp at h⟩
 
+/-- non-vacuity of the hypotheses of `addServer_5xx_reachable` (2) and (3): the empty store has no row for
+`RestBridge.W.A`; `RestBridge.W.stored` holds it reported and never probed (the discovery branch); a fault at the
+enqueue resp. at the marking update gives `unableToDiscover` on these concrete stores -/
+example : (({} : AbsState).getRow RestBridge.W.A = none) ∧
+    (RestBridge.runFaulty [none, none, some false] (UC.addServer [] 2 RestBridge.W.A) {} 5).2 = .unableToDiscover ∧
+    (RestBridge.runFaulty [none, none, some true] (UC.addServer [] 2 RestBridge.W.A) RestBridge.W.stored 5).2 = .unableToDiscover ∧
+    RestBridge.addStatus (RestBridge.runFaulty [none, none, none, none] (UC.addServer [] 2 RestBridge.W.A) {} 5).2 = 202 := by
+  decide
+
 end Swat4.C17
